@@ -19,6 +19,17 @@ CLAIMED = {
         "words, sentinels in dead slots and process crashes (unsafe-precondition aborts are attributed to the stimulus); "
         "UB without observable effect is out of reach. Capacities above 4 are covered by random histories, not exhaustively.",
    design="5/C06"),
+ "C08": dict(
+   text="Converter.tla models the rate converter at two layers: the code's accumulator loop over Floor / Linear interpolators, from_iter's look-ahead, "
+        "the setters and MulHz (layer 2), and the closed-form source position P_n = sum of ratios (layer 1). TLC checks Position, FloorOut, LinearOut, "
+        "InHull, Unity, ExhIff, Count and one-control-pull-per-output on dyadic ratios {1/4..3, 17/16} changing per frame, source lengths 0..8, and "
+        "emits the behaviours; the harness runs them through every constructor route (from_hz_to_hz, scale_hz, scale_playback_hz, scale_sample_hz, "
+        "the three setters, mul_hz) on f64/f32/i16/u8 mono and stereo over instrumented sources, plus random non-dyadic ratios and long runs "
+        "(10k / 100k outputs); TLC validates pull counts and exhaustion flags exactly (the f64 accumulator is modelled bit-exactly), Floor frames "
+        "exactly and Linear frames exactly on the exact domain, else within 4 ulp at the operands' scale / < 1 LSB.",
+   note="Trusted: TLC, Big/Dyadic, the fixed-point accumulator model (cross-checked against Dyadic by MC_ConverterFix), harness loggers. "
+        "Ratios restricted to 0 or [2^-31, 2^23). Sinc interpolation is C18.",
+   design="5/C08"),
  "C09": dict(
    text="Graph.tla models petgraph's DfsPostOrder on the reversed graph plus the processor loop (layer 2) and the relational property (processed set = "
         "ancestors of the output + output, once each, topological when acyclic, inputs = one per incoming edge from a different node showing the "
